@@ -187,6 +187,15 @@ def make_case(rng):
         items.append('  <%s id="cm" inside="%s"/>' % (shape, " ".join("#" + mid for mid, _ in lst)))
         conts.append(dict(id="cm", mode="inside", shape=shape, refs=[(mid, "rect", [fmt(v) for v in bx.tuple()]) for mid, bx in lst],
                           trbl=[("abs", "0")] * 4, feats=["inside." + shape, "inside.list>=3"]))
+    if rng.random() < 0.05:
+        # 'inside' listed elements without any common area: whatever svgdx makes of it (an error, or an element without
+        # geometry), the control attributes must not survive
+        x0, y0 = F(rng.randint(200, 300)), F(rng.randint(200, 300))
+        items.append('  <rect id="dj1" xy="%s %s" wh="5 5"/>' % (fmt(x0), fmt(y0)))
+        items.append('  <rect id="dj2" xy="%s %s" wh="5 5"/>' % (fmt(x0 + 20), fmt(y0)))
+        shape = rng.choice(["rect", "circle", "ellipse"])
+        items.append('  <%s id="cdj" inside="#dj1 #dj2"%s/>' % (shape, rng.choice(["", ' margin="1"', ' margin="1 2"', ' margin="10%"'])))
+        conts.append(dict(id="cdj", mode="leftover-only", shape=shape, trbl=[("abs", "0")] * 4, feats=["inside.disjoint"]))
     if rng.random() < 0.06 and tops:
         # negative family: a listed element that has no bounding box (empty group, size in absolute units) - the container
         # cannot enclose 'all listed elements', so the document must be rejected rather than the member silently dropped
@@ -231,6 +240,8 @@ def check_case(ctx, case):
         if left:
             acc.violation("attribute-left", "leftover(%s)" % ",".join(left), dict(case, element=c["id"]), observed=el.attrs, expected="no surround/inside/margin")
         trbl = [(k, geom.fr(v)) for k, v in c["trbl"]]
+        if c["mode"] == "leftover-only":
+            continue
         try:
             if c["mode"] == "surround":
                 u = Box(*[geom.fr(v) for v in c["union"]])
